@@ -1,5 +1,5 @@
 #![no_main]
-//! c14::C14: the fuzz bytes are the random stream of the property's proptest strategy (pass-through RNG).
+//! c14::C14: the fuzz bytes select (as a seed) a case of the property's proptest strategy; see engine::fuzzing::run_passthrough.
 use engine::fuzzing::Fuzzer;
 use engine::props::c14::C14;
 use libfuzzer_sys::fuzz_target;
